@@ -2,6 +2,7 @@
 from __future__ import annotations
 
 import asyncio
+import hashlib
 import itertools
 import json
 from urllib.parse import parse_qsl
@@ -26,15 +27,40 @@ RULES = {
     "conc": "Hypothesis on a virtual-time loop (ASGI): 2..4 concurrent tasks, each running its own short history with a start offset, "
     "per-message receive delays from a 0.25 grid (ties included), optional disconnect; judged by invariants (every returned value is "
     "complete and identical across tasks, each server message is consumed at most once, no receive after the final message, only "
-    "documented errors); non-trivial = always (>= 2 tasks)",
+    "documented errors; json and form results are the identical object in every task; no access is cancelled by another task's access); "
+    "tasks may also close() or stream partially; non-trivial = always (>= 2 tasks)",
+    "env_grid": "enumerated request envelopes: every history of length <= 2 x 5 body kinds x {three pieces with an empty message, body + empty "
+    "terminator message} x {WSGI, ASGI} x (method GET/HEAD/OPTIONS/DELETE/PUT/PATCH/POST with an exact Content-Length, POST/GET/DELETE without "
+    "length, POST/GET with Transfer-Encoding: chunked) x (ASGI) optional message keys present / omitted (no 'body' key on empty messages, no "
+    "'more_body' key on the final one); same three-state model: neither the method nor the announced length changes what the body is",
+    "falsy_grid": "enumerated: every history of length <= 3 over bodies whose cached values are falsy (empty body with and without a type, JSON "
+    "null / 0 / false / \"\" / [] / {}, empty urlencoded form, multipart form without parts) x {whole, pieces} x {WSGI, ASGI}",
+    "sizes": "enumerated (WSGI; the large bodies also as ASGI messages): bodies of 64 KiB - 1 .. 200 000 bytes (non-periodic content) delivered whole, in 64 KiB pieces, in uneven pieces and in "
+    "1000-byte pieces, and 24..48-byte bodies read with an explicit chunk_size of 1 .. len+1, x with / without Content-Length x 9 histories "
+    "(stream, body+stream, body+partial+stream, stream+body, partial+body, json/form + stream ...): reads that fill chunk_size exactly, "
+    "several full reads in a row, replay of a cached body longer than chunk_size",
+    "disc_grid": "enumerated (ASGI): every history of length <= 2 x 5 body kinds x 3 partitions x http.disconnect replacing message 0..3 x "
+    "with / without Content-Length and optional keys; the first access that reads must raise ClientDisconnect, none returns data",
+    "close_grid": "enumerated: histories <reads of length <= 2> + close (+ close) + <one more access> (thorough: two more) over JSON, urlencoded, "
+    "multipart and raw bodies x 2 partitions x {WSGI, ASGI}: what was cached before close() stays cached, close() changes no state",
+    "conc_grid": "enumerated (ASGI, virtual time): every pair and every triple of single-access tasks over {body, json, form, stream, close} x start "
+    "offsets (all together / staggered by 0.25) x receive delay 0 / 0.25 x JSON, urlencoded and multipart bodies (pairs also with a disconnect); "
+    "judged like conc",
 }
 ASSUMPTIONS = [
     "a stream() started while another task's body read is pending may raise the stream-consumed error or replay; it must never see a partial body",
     "after a disconnect, later accesses may raise ClientDisconnect or the stream-consumed error, never return data; exceptions may be cached or recomputed",
     "partial streaming is modelled as taking k chunks and closing the iterator",
+    "a request body is legitimate with every method (GET, HEAD, OPTIONS, DELETE included); the server announces it with an exact Content-Length, with "
+    "Transfer-Encoding: chunked or (ASGI / a de-chunking WSGI server) not at all; wsgi.input.read(n) may return fewer than n bytes while more follow",
+    "ASGI: 'body' and 'more_body' are optional keys of http.request (defaults b\"\" and False); a server may send empty messages anywhere",
+    "close() in one task never makes an access of another task fail with CancelledError",
 ]
 
 OPS = ["body", "stream", "partial", "json", "form", "close"]
+# PENDING-DEFECT: `await request.is_disconnected()` (ASGI) is not one of the accesses the statement quantifies over and is
+# therefore not generated.  On the unchanged tree it takes one message from receive() and, if that is an http.request
+# message, drops it: [is_disconnected, body] on the messages b"hello " + b"world" returns b"world".  Reported, not judged here.
 
 
 def multipart_body():
@@ -43,8 +69,27 @@ def multipart_body():
     return mref.encode(form), [["field", "a", "1\r\n-"], ["file", "f", "u.bin", "text/plain", b"\r\n--Xb\x00\xff"]]
 
 
+_BIG = {}
+
+
+def big_bytes(size):
+    """Deterministic non-periodic content (a 64 KiB slice repeated or swapped with another one is visible)."""
+    if size not in _BIG:
+        blocks = [hashlib.blake2b(i.to_bytes(4, "big"), digest_size=64).digest() for i in range(size // 64 + 1)]
+        _BIG[size] = b"".join(blocks)[:size]
+    return _BIG[size]
+
+
 def body_for(kind, payload=None):
     """-> (content_type or None, body bytes, expected json | None, expected form items | None)"""
+    if kind == "big":
+        return "application/octet-stream", big_bytes(int(payload)), None, None
+    if kind == "multipart_empty":
+        return 'multipart/form-data; boundary="XbX"', b"--XbX--\r\n", None, ("ok", [])
+    if kind == "json_doc":  # payload = the JSON text
+        return "application/json", payload.encode("utf-8"), ("ok", json.loads(payload)), None
+    if kind == "empty_json":  # a JSON type on an empty body: json is a 400, body / stream are b""
+        return "application/json", b"", ("http", 400), None
     if kind == "json":
         data = payload if payload is not None else {"a": [1, 2, {"b": None}], "é": "ü"}
         raw = json.dumps(data, ensure_ascii=False).encode("utf-8")
@@ -73,6 +118,13 @@ def partition(raw, spec):
         return [raw[: n // 3], b"", raw[n // 3: 2 * n // 3], raw[2 * n // 3:]]
     if spec == "bytes":
         return [raw[i:i + 1] for i in range(len(raw))] or [b""]
+    if spec == "term":  # the whole body, then an empty final message (what servers do for chunked uploads)
+        return [raw, b""]
+    if spec == "lead":
+        return [b"", raw]
+    if isinstance(spec, dict):  # {"every": n}: pieces of n bytes
+        n = int(spec["every"])
+        return [raw[i:i + n] for i in range(0, len(raw), n)] or [b""]
     if isinstance(spec, list):
         return mref.chunks_from_cuts(raw, spec)
     raise core.HarnessError(spec)
@@ -192,11 +244,19 @@ def same_items(a, b):
     return True
 
 
-def compare(r, side, where, op, want, got, raw, objs, disconnected=False):
-    """want: model outcome; got: (kind, value)"""
+def compare(r, side, where, op, want, got, raw, objs, disconnected=False, first_read=False):
+    """want: model outcome; got: (kind, value).  first_read: nothing has touched the stream before this access."""
     tag = f"C10:{side}:{op}"
     if got[0] == "unexpected":
         r.fail(f"{tag}:unexpected-exception", f"{where}: {got[1]}")
+        return
+    if first_read and want == ("exc", "ClientDisconnect"):
+        # the access that meets the disconnect reports it as such ("surfaces as the client-disconnect error"); only
+        # LATER accesses may see the stream-consumed error instead
+        if got[0] == "ok":
+            r.fail(f"{tag}:disconnect-as-truncated-data", f"{where}: the client disconnected mid-body, yet the access returned {str(got[1])[:60]}")
+        elif got != want:
+            r.fail(f"{tag}:expected-ClientDisconnect", f"{where}: the first access to read the body met the disconnect and got {got!r}")
         return
     if disconnected and want[0] == "exc" and got in (("exc", "ClientDisconnect"), ("exc", "RuntimeError")):
         return  # after a disconnect the cached error or the stream-consumed error may surface
@@ -264,19 +324,42 @@ def compare(r, side, where, op, want, got, raw, objs, disconnected=False):
 # sequential histories
 
 
-def run_wsgi_history(case, ctype, chunks):
+def envelope(case, ctype, raw):
+    """Header list of the request: Content-Type and how the server announces the body (case['clen']:
+    None = not at all, 'exact' = Content-Length, 'chunked' = Transfer-Encoding: chunked)."""
     headers = [["Content-Type", ctype]] if ctype else []
-    env = gw.make_environ(gw.areq(method="POST", headers=headers, body=chunks))
+    clen = case.get("clen")
+    if clen == "exact":
+        headers.append(["Content-Length", str(len(raw))])
+    elif clen == "chunked":
+        headers.append(["Transfer-Encoding", "chunked"])
+    elif clen is not None:
+        raise core.HarnessError(clen)
+    return headers
+
+
+def split_op(op):
+    """'stream:7' -> ('stream', 7): an explicit chunk_size (WSGI only; ASGI's stream() takes none)."""
+    base, _, arg = op.partition(":")
+    return base, (int(arg) if arg else None)
+
+
+def run_wsgi_history(case, ctype, chunks, raw=b""):
+    env = gw.make_environ(gw.areq(method=case.get("method", "POST"), headers=envelope(case, ctype, raw), body=chunks))
+    if case.get("clen") == "chunked":
+        env["wsgi.input_terminated"] = True  # what de-chunking servers set
     req = W.Request(env)
     out = []
     for op in case["ops"]:
+        op, size = split_op(op)
+        args = () if size is None else (size,)
         try:
             if op == "body":
                 out.append(("ok", req.body))
             elif op == "stream":
-                out.append(("ok", list(req.stream())))
+                out.append(("ok", list(req.stream(*args))))
             elif op == "partial":
-                it = req.stream()
+                it = req.stream(*args)
                 got = []
                 for c in it:
                     got.append(c)
@@ -296,15 +379,18 @@ def run_wsgi_history(case, ctype, chunks):
     return out, env["wsgi.input"]
 
 
-def run_asgi_history(case, ctype, chunks, disconnect_at):
-    headers = [["Content-Type", ctype]] if ctype else []
-    scope = gw.make_scope(gw.areq(method="POST", headers=headers))
+def run_asgi_history(case, ctype, chunks, disconnect_at, raw=b""):
+    scope = gw.make_scope(gw.areq(method=case.get("method", "POST"), headers=envelope(case, ctype, raw)))
     script = [{"type": "http.request", "body": c, "more_body": i < len(chunks) - 1} for i, c in enumerate(chunks)]
-    if case.get("omit_more_body") or case.get("partition") == "three":
+    if case.get("omit_more_body") or case.get("omit_keys") or case.get("partition") == "three":
         # "more_body" is optional and defaults to False; so is "body"
         script[-1].pop("more_body")
         if script[-1]["body"] == b"":
             script[-1].pop("body")
+    if case.get("omit_keys"):
+        for m in script:
+            if m.get("body") == b"":
+                m.pop("body")
     if disconnect_at is not None:
         script = script[:disconnect_at] + [{"type": "http.disconnect"}]
     state = {"pos": 0, "extra": 0, "calls": 0}
@@ -324,6 +410,7 @@ def run_asgi_history(case, ctype, chunks, disconnect_at):
         req = A.Request(scope, receive)
         out = []
         for op in case["ops"]:
+            op = split_op(op)[0]
             try:
                 if op == "body":
                     out.append(("ok", await req.body))
@@ -390,12 +477,17 @@ def oracle_seq(case) -> Result:
         disc = min(disc, len(chunks) - 1)
     model = Model(ctype, raw, ejson, eform, disconnect=disc is not None)
     where0 = f"{side} body={case['body']} ctype={ctype!r} partition={case['partition']!r} disconnect_at={disc} ops={case['ops']!r}"
+    extras = {k: case[k] for k in ("method", "clen", "omit_keys") if case.get(k)}
+    if extras:
+        where0 += f" {extras!r}"
+    if case["body"] in ("big",):
+        where0 += f" size={len(raw)}"
     if side == "wsgi":
         wchunks = [c for c in chunks if c]
-        outs, inp = run_wsgi_history(case, ctype, wchunks)
+        outs, inp = run_wsgi_history(case, ctype, wchunks, raw)
     else:
         try:
-            outs, state = run_asgi_history(case, ctype, chunks, disc)
+            outs, state = run_asgi_history(case, ctype, chunks, disc, raw)
         except vtime.Hang as exc:
             r.fail("C10:asgi:hang", f"{where0}: {exc}")
             return r
@@ -403,11 +495,13 @@ def oracle_seq(case) -> Result:
     kinds = set()
     for i, (op, got) in enumerate(zip(case["ops"], outs)):
         where = f"{where0} step {i} ({op})"
+        op = split_op(op)[0]
         kinds.add(op)
         if op == "close":
             if got[0] != "ok":
                 r.fail(f"C10:{side}:close-raised", f"{where}: {got!r}")
             continue
+        fresh = model.body_state is None and not model.consumed
         if op == "body":
             want = model.body()
         elif op in ("stream", "partial"):
@@ -418,7 +512,7 @@ def oracle_seq(case) -> Result:
             want = model.json()
         else:
             want = model.form()
-        compare(r, side, where, op, want, got, raw, objs, disconnected=disc is not None)
+        compare(r, side, where, op, want, got, raw, objs, disconnected=disc is not None, first_read=fresh)
     if side == "asgi":
         if state["extra"] and disc is None:
             r.fail("C10:asgi:receive-after-final-message", f"{where0}: {state['extra']} receive() call(s) after the final request message")
@@ -433,7 +527,10 @@ def oracle_seq(case) -> Result:
     r.label(f"side={side}", f"body={case['body']}", f"ops={len(case['ops'])}")
     if disc is not None:
         r.label("disconnect")
-    r.key = (side, case["body"], repr(case["partition"]), tuple(case["ops"]), disc, case.get("ctype_override"), case.get("payload"))
+    if extras:
+        r.label(*[f"{k}={v}" for k, v in extras.items()])
+    r.key = (side, case["body"], repr(case["partition"]), tuple(case["ops"]), disc, case.get("ctype_override"), case.get("payload"),
+             case.get("method"), case.get("clen"), case.get("omit_keys"))
     return r
 
 
@@ -443,14 +540,13 @@ def oracle_seq(case) -> Result:
 
 def oracle_conc(case) -> Result:
     r = Result()
-    ctype, raw, ejson, eform = body_for(case["body"])
+    ctype, raw, ejson, eform = body_for(case["body"], case.get("payload"))
     chunks = partition(raw, case["partition"])
     delays = case["delays"]
     disc = case.get("disconnect_at")
     if disc is not None:
         disc = min(disc, len(chunks) - 1)
-    headers = [["Content-Type", ctype]] if ctype else []
-    scope = gw.make_scope(gw.areq(method="POST", headers=headers))
+    scope = gw.make_scope(gw.areq(method=case.get("method", "POST"), headers=envelope(case, ctype, raw)))
     script = [{"type": "http.request", "body": c, "more_body": i < len(chunks) - 1} for i, c in enumerate(chunks)]
     if disc is not None:
         script = script[:disc] + [{"type": "http.disconnect"}]
@@ -486,6 +582,14 @@ def oracle_conc(case) -> Result:
                     results.append((tid, op, ("ok", await req.body)))
                 elif op == "stream":
                     results.append((tid, op, ("ok", [c async for c in req.stream()])))
+                elif op == "partial":
+                    agen = req.stream()
+                    got = []
+                    async for c in agen:
+                        got.append(c)
+                        break
+                    await agen.aclose()
+                    results.append((tid, op, ("ok", got)))
                 elif op == "json":
                     results.append((tid, op, ("ok", await req.json)))
                 elif op == "form":
@@ -495,11 +599,27 @@ def oracle_conc(case) -> Result:
                         if isinstance(v, str):
                             items.append(["field", k, v])
                         else:
-                            await v.aseek(0)
-                            items.append(["file", k, v.filename, v.content_type, await v.aread()])
+                            try:
+                                await v.aseek(0)
+                                data = await v.aread()
+                            except ValueError:  # closed by another task's close(): still the same cached form
+                                data = "<closed>"
+                            items.append(["file", k, v.filename, v.content_type, data])
                     results.append((tid, op, ("ok", (items, fd))))
+                elif op == "close":
+                    await req.close()
+                    results.append((tid, op, ("ok", None)))
+                else:
+                    raise core.HarnessError(op)
             except gw.ExtraReceive as exc:
                 results.append((tid, op, ("unexpected", f"ExtraReceive: {exc}")))
+            except asyncio.CancelledError:
+                # the harness cancels workers only after a detected hang (the case has failed by then); anything else
+                # is an access torn down by another task's access
+                results.append((tid, op, ("unexpected", "CancelledError: the pending access was cancelled")))
+                return
+            except core.HarnessError:
+                raise
             except Exception as exc:  # noqa: BLE001
                 results.append((tid, op, classify_exc(exc)))
 
@@ -508,17 +628,27 @@ def oracle_conc(case) -> Result:
         await asyncio.gather(*[worker(req, i, t["offset"], t["ops"]) for i, t in enumerate(case["tasks"])])
 
     where = f"body={case['body']} partition={case['partition']!r} delays={delays!r} disconnect_at={disc} tasks={case['tasks']!r}"
+    extras = {k: case[k] for k in ("method", "clen") if case.get(k)}
+    if extras:
+        where += f" {extras!r}"
     try:
         vtime.run_virtual(main)
     except vtime.Hang as exc:
         r.fail("C10:conc:hang", f"{where}: {exc}")
         return r
+    mt = (ctype or "").split(";")[0]
     bodies = []
+    jsons = []
+    forms = []
     successes = 0
     for tid, op, got in results:
         w = f"{where}: task {tid} {op}"
         if got[0] == "unexpected":
             r.fail(f"C10:conc:{op}:unexpected-exception", f"{w}: {got[1]}")
+            continue
+        if op == "close":
+            if got[0] != "ok":
+                r.fail("C10:conc:close-raised", f"{w}: {got!r}")
             continue
         if got[0] == "ok":
             successes += 1
@@ -533,59 +663,202 @@ def oracle_conc(case) -> Result:
             elif op == "stream":
                 if b"".join(val) != raw:
                     r.fail("C10:conc:stream:partial-body-seen", f"{w}: streamed {len(b''.join(val))} of {len(raw)} bytes")
+            elif op == "partial":
+                if not raw.startswith(b"".join(val)):
+                    r.fail("C10:conc:partial:stream-prefix", f"{w}: {b''.join(val)[:40]!r} is not a prefix of the body")
             elif op == "json":
                 if ejson is None or ejson[0] != "ok" or val != ejson[1]:
                     r.fail("C10:conc:json:value", f"{w}: {val!r}")
+                jsons.append(val)
             elif op == "form":
-                if eform is None or val[0] != eform[1]:
+                if eform is None or not same_items(val[0], eform[1]):
                     r.fail("C10:conc:form:value", f"{w}: {val[0]!r}")
+                forms.append(val[1])
         elif got[0] == "exc":
             if got[1] == "ClientDisconnect" and disc is None:
                 r.fail(f"C10:conc:{op}:spurious-disconnect", w)
         elif got[0] == "http":
-            mt = (ctype or "").split(";")[0]
             legit = (op == "json" and (mt != "application/json" or (ejson and ejson[0] == "http"))) or (op == "form" and mt not in ("multipart/form-data", "application/x-www-form-urlencoded"))
             if not legit:
                 r.fail(f"C10:conc:{op}:http-error", f"{w}: {got!r}")
     if any(b is not bodies[0] for b in bodies):
         r.fail("C10:conc:body:not-identical", f"{where}: concurrent body accesses returned different objects")
+    if any(j is not jsons[0] for j in jsons):
+        r.fail("C10:conc:json:not-identical", f"{where}: json accesses of different tasks returned different objects (the result is not shared)")
+    if any(f is not forms[0] for f in forms):
+        r.fail("C10:conc:form:not-identical", f"{where}: form accesses of different tasks returned different objects (the result is not shared)")
     if state["extra"] and disc is None:
         r.fail("C10:conc:receive-after-final-message", f"{where}: {state['extra']} extra receive() calls")
     if state["calls"] - state["extra"] > len(script):
         r.fail("C10:conc:message-consumed-twice", f"{where}: {state['calls']} receive() calls for {len(script)} messages")
     if state["max_concurrent"] > 1:
         r.fail("C10:conc:concurrent-receive", f"{where}: {state['max_concurrent']} receive() calls were in flight at the same time (two readers share the stream)")
-    # all tasks asking only for `body` must all succeed (the cached future is shared)
-    if disc is None and all(set(t["ops"]) <= {"body", "json"} for t in case["tasks"]) and (ctype or "").startswith("application/json") and ejson and ejson[0] == "ok":
+    # tasks that only use accesses which share the one cached body read (body; json on a JSON body; form on an urlencoded
+    # body; close) must all succeed, whatever the interleaving
+    sharing = {"body", "close"}
+    if mt == "application/json" and ejson and ejson[0] == "ok":
+        sharing.add("json")
+    if mt == "application/x-www-form-urlencoded":
+        sharing.add("form")
+    if disc is None and all(set(t["ops"]) <= sharing for t in case["tasks"]):
         if any(got[0] != "ok" for _, _, got in results):
             r.fail("C10:conc:shared-read-failed", f"{where}: {[(t, o, g[0]) for t, o, g in results]!r}")
     r.nontrivial = True
     r.label(f"tasks={len(case['tasks'])}", f"body={case['body']}", "disconnect" if disc is not None else "complete", f"successes={min(successes, 4)}")
+    if any("close" in t["ops"] for t in case["tasks"]):
+        r.label("with-close")
     return r
 
 
-SUBS = {"seq": oracle_seq, "seq_grid": oracle_seq, "conc": oracle_conc}
+SUBS = {"seq": oracle_seq, "seq_grid": oracle_seq, "conc": oracle_conc, "env_grid": oracle_seq, "falsy_grid": oracle_seq,
+        "sizes": oracle_seq, "disc_grid": oracle_seq, "close_grid": oracle_seq, "conc_grid": oracle_conc}
 
 
-def grid_shard(rec, k, nshards, maxlen):
-    g = core.guarded(oracle_seq)
-    i = 0
+def histories(maxlen, ops=OPS):
     for n in range(1, maxlen + 1):
-        for ops in itertools.product(OPS, repeat=n):
-            for body in ("json", "badjson", "urlencoded", "multipart", "raw"):
-                for part in ("whole", "three", "bytes"):
+        for h in itertools.product(ops, repeat=n):
+            yield list(h)
+
+
+def seq_grid_cases(quick):
+    for ops in histories(3 if quick else 4):
+        for body in ("json", "badjson", "urlencoded", "multipart", "raw"):
+            for part in ("whole", "three", "bytes"):
+                for side in ("wsgi", "asgi"):
+                    yield {"side": side, "body": body, "partition": part, "ops": ops}
+
+
+ENVELOPES = [{"method": m, "clen": "exact"} for m in ("GET", "HEAD", "OPTIONS", "DELETE", "PUT", "PATCH", "POST")] + [
+    {"method": "POST"}, {"method": "POST", "clen": "chunked"}, {"method": "GET", "clen": "chunked"},
+    {"method": "GET"}, {"method": "DELETE"}]  # no announced length at all: HTTP/2, where Content-Length is optional
+
+
+def env_grid_cases(quick):
+    """Request envelopes: the method and the way the body is announced do not change what the body is."""
+    for ops in histories(2 if quick else 3):
+        for body in ("json", "urlencoded", "multipart", "raw", "badjson"):
+            for part in ("three", "term"):
+                for env in ENVELOPES:
+                    yield {"side": "wsgi", "body": body, "partition": part, "ops": ops, **env}
+                    for omit in (False, True):
+                        case = {"side": "asgi", "body": body, "partition": part, "ops": ops, **env}
+                        if omit:
+                            case["omit_keys"] = True
+                        yield case
+
+
+FALSY_BODIES = [("raw", b""), ("notype", b""), ("urlencoded", b""), ("empty_json", None), ("multipart_empty", None)] + [
+    ("json_doc", t) for t in ("null", "0", "false", '""', "[]", "{}", "0.0")]
+
+
+def falsy_grid_cases(quick):
+    """Cached values that are falsy: an empty body, JSON null / 0 / [] ..., a form without fields."""
+    for ops in histories(3 if quick else 4):
+        for body, payload in FALSY_BODIES:
+            for part in ("whole", "three"):
+                for side in ("wsgi", "asgi"):
+                    case = {"side": side, "body": body, "partition": part, "ops": ops}
+                    if payload is not None:
+                        case["payload"] = payload
+                    if side == "asgi" and part == "three":
+                        case["omit_keys"] = True
+                    yield case
+
+
+SIZE_HISTORIES = [["stream"], ["body"], ["body", "stream"], ["body", "partial", "stream"], ["stream", "body"], ["partial", "body"],
+                  ["body", "stream", "stream"], ["partial", "stream"], ["body", "body", "partial"]]
+
+
+def sizes_cases(quick):
+    """WSGI reads that fill chunk_size exactly, several in a row, and replays of bodies longer than chunk_size."""
+    cs = 4096 * 16
+    sizes = [cs - 1, cs, cs + 1, 2 * cs, 2 * cs + 1, 200000] if quick else [cs - 1, cs, cs + 1, 2 * cs - 1, 2 * cs, 2 * cs + 1, 3 * cs, 200000, 5 * cs + 17]
+    for size in sizes:
+        for part in ("whole", {"every": cs}, [cs - 1, cs + 5, 3 * cs], {"every": 1000}):
+            for clen in (None, "exact"):
+                for ops in SIZE_HISTORIES:
+                    case = {"side": "wsgi", "body": "big", "payload": size, "partition": part, "ops": ops}
+                    if clen:
+                        case["clen"] = clen
+                    yield case
+                    if clen and part != {"every": 1000}:
+                        yield dict(case, side="asgi")
+    # explicit chunk_size on small bodies: every relation between chunk_size, piece size and body length
+    small = [("raw", bytes(range(65, 89))), ("json", None), ("urlencoded", None)]
+    for body, payload in small:
+        n = len(body_for(body, payload)[1])
+        for k in sorted({1, 2, 5, 8, n - 1, n, n + 1}):
+            for part in ("whole", "three", [5, 10], {"every": 8}):
+                for clen in (None, "exact"):
+                    for ops in SIZE_HISTORIES + [["json", "stream"], ["form", "stream"], ["form", "partial", "body"]]:
+                        case = {"side": "wsgi", "body": body, "partition": part, "ops": [o if o not in ("stream", "partial") else f"{o}:{k}" for o in ops]}
+                        if payload is not None:
+                            case["payload"] = payload
+                        if clen:
+                            case["clen"] = clen
+                        yield case
+
+
+def disc_grid_cases(quick):
+    """ASGI: http.disconnect in place of message k, for every short history."""
+    for ops in histories(2 if quick else 3):
+        for body in ("json", "urlencoded", "multipart", "raw", "badjson"):
+            for part in ("whole", "three", "term"):
+                npos = {"whole": 1, "three": 4, "term": 2}[part]
+                for k in range(npos):
+                    for env in ({}, {"clen": "exact", "omit_keys": True}):
+                        yield {"side": "asgi", "body": body, "partition": part, "ops": ops, "disconnect_at": k, **env}
+
+
+def close_grid_cases(quick):
+    """close() in the middle of longer histories: whatever was cached before stays cached, nothing else changes state."""
+    reads = ["body", "stream", "json", "form"]
+    prefixes = [[]] + [[a] for a in reads] + [[a, b] for a in reads for b in reads]
+    for pre in prefixes:
+        for suf in [[a] for a in reads + ["partial"]] + ([] if quick else [[a, b] for a in reads for b in reads]):
+            for body in ("json", "urlencoded", "multipart", "raw"):
+                for part in ("three", "term"):
                     for side in ("wsgi", "asgi"):
-                        i += 1
-                        if i % nshards != k:
-                            continue
-                        case = {"side": side, "body": body, "partition": part, "ops": list(ops)}
-                        res = g(case)
-                        rec.count("seq_grid", case, res)
-                        new, old = rec.split(res)
-                        rec.note_known(old)
-                        for f in new:
-                            rec.add_violation("seq_grid", f, case)
-                            rec.skip.add(f.bucket)
+                        yield {"side": side, "body": body, "partition": part, "ops": pre + ["close"] + suf}
+                        if len(pre) == 2:
+                            yield {"side": side, "body": body, "partition": part, "ops": pre + ["close", "close"] + suf, "clen": "exact"}
+
+
+CONC_OPS = ["body", "json", "form", "stream", "close"]
+
+
+def conc_grid_cases(quick):
+    """Every pair / triple of single-access tasks, started together or staggered, with immediate or delayed messages."""
+    for body in ("json", "urlencoded", "multipart"):
+        for delays in ([0.25], [0]):
+            for n, offsets in ((2, [(0, 0), (0, 0.25), (0, 0.5)]), (3, [(0, 0, 0), (0, 0.25, 0.25), (0, 0.25, 0.5)])):
+                for ops in itertools.product(CONC_OPS, repeat=n):
+                    for offs in offsets:
+                        tasks = [{"offset": o, "ops": [op]} for o, op in zip(offs, ops)]
+                        yield {"body": body, "partition": "three", "delays": delays, "tasks": tasks}
+                        if n == 2:
+                            yield {"body": body, "partition": "three", "delays": delays, "tasks": tasks, "disconnect_at": 2}
+                        if not quick:
+                            yield {"body": body, "partition": "three", "delays": delays, "clen": "exact", "method": "GET",
+                                   "tasks": [{"offset": o, "ops": [op, op]} for o, op in zip(offs, ops)]}
+
+
+ENUMERATED = {"seq_grid": seq_grid_cases, "env_grid": env_grid_cases, "falsy_grid": falsy_grid_cases, "sizes": sizes_cases,
+              "disc_grid": disc_grid_cases, "close_grid": close_grid_cases, "conc_grid": conc_grid_cases}
+
+
+def enum_shard(rec, k, nshards, sub, quick):
+    g = core.guarded(SUBS[sub])
+    for i, case in enumerate(ENUMERATED[sub](quick)):
+        if i % nshards != k:
+            continue
+        res = g(case)
+        rec.count(sub, case, res)
+        new, old = rec.split(res)
+        rec.note_known(old)
+        for f in new:
+            rec.add_violation(sub, f, case)
+            rec.skip.add(f.bucket)
 
 
 @st.composite
@@ -596,13 +869,26 @@ def seq_case(draw):
         case["payload"] = draw(st.binary(max_size=200))
     elif body == "urlencoded" and draw(st.booleans()):
         case["payload"] = draw(st.sampled_from([b"", b"a=1", b"x=%ff&y=%E4%B8%AD", b"a&b&c", b"k=v" * 40]))
-    case["partition"] = draw(st.one_of(st.sampled_from(["whole", "three", "bytes"]), st.lists(st.integers(0, 200), max_size=6)))
+    elif body == "json" and draw(st.integers(0, 3)) == 0:
+        case["body"] = "json_doc"
+        case["payload"] = draw(st.sampled_from(["null", "0", "false", '""', "[]", "{}", "[[]]", '{"": 0}', "1e3", '"x"', " [1,\n 2] "]))
+    case["partition"] = draw(st.one_of(st.sampled_from(["whole", "three", "bytes", "term", "lead"]), st.lists(st.integers(0, 200), max_size=6)))
     if draw(st.integers(0, 3)) == 0:
         case["ctype_override"] = draw(st.sampled_from(["application/json", "application/x-www-form-urlencoded", "text/plain", "", "application/json; charset=utf-8"]))
         if body == "multipart":
             case.pop("ctype_override")
     if case["side"] == "asgi" and draw(st.integers(0, 3)) == 0:
         case["disconnect_at"] = draw(st.integers(0, 5))
+    # the envelope: method, announced length, optional message keys, explicit chunk sizes
+    if draw(st.integers(0, 2)) == 0:
+        case["method"] = draw(st.sampled_from(["GET", "HEAD", "OPTIONS", "DELETE", "PUT", "PATCH", "POST", "QUERY"]))
+    if draw(st.integers(0, 2)) == 0:
+        case["clen"] = draw(st.sampled_from(["exact", "exact", "chunked"]))
+    if case["side"] == "asgi" and draw(st.integers(0, 2)) == 0:
+        case["omit_keys"] = True
+    if case["side"] == "wsgi" and draw(st.integers(0, 2)) == 0:
+        sizes = draw(st.lists(st.sampled_from([1, 2, 3, 7, 16, 64, 200]), min_size=len(case["ops"]), max_size=len(case["ops"])))
+        case["ops"] = [f"{o}:{k}" if o in ("stream", "partial") else o for o, k in zip(case["ops"], sizes)]
     return case
 
 
@@ -612,17 +898,23 @@ def conc_case(draw):
     ntasks = draw(st.integers(2, 4))
     tasks = []
     for _ in range(ntasks):
-        tasks.append({"offset": draw(st.sampled_from([0, 0, 0.25, 0.5, 1.0])), "ops": draw(st.lists(st.sampled_from(["body", "body", "json", "form", "stream"]), min_size=1, max_size=3))})
+        tasks.append({"offset": draw(st.sampled_from([0, 0, 0.25, 0.5, 1.0])),
+                      "ops": draw(st.lists(st.sampled_from(["body", "body", "json", "form", "stream", "json", "form", "stream", "close", "partial"]), min_size=1, max_size=3))})
     case = {"body": body, "partition": draw(st.sampled_from(["whole", "three", "three", [3, 9, 9, 20]])), "delays": draw(st.lists(st.sampled_from([0, 0.25, 0.5, 1.0]), min_size=1, max_size=4)), "tasks": tasks}
     if draw(st.integers(0, 3)) == 0:
         case["disconnect_at"] = draw(st.integers(0, 3))
+    if draw(st.integers(0, 3)) == 0:
+        case["clen"] = "exact"
+        case["method"] = draw(st.sampled_from(["GET", "POST", "PUT"]))
     return case
 
 
 def run(rec, only=None):
     quick = rec.tier == "quick"
-    core.run_sharded(rec, grid_shard, 16, core.ncpu(), (3 if quick else 4,))
-    rec.exhaustive["seq_grid"] = True
+    for sub in ENUMERATED:
+        if only is None or sub in only:
+            core.run_sharded(rec, enum_shard, 16, core.ncpu(), (sub, quick))
+            rec.exhaustive[sub] = True
     core.drive_hypothesis(rec, "seq", seq_case(), oracle_seq, 1500 if quick else 30000)
     core.drive_hypothesis(rec, "conc", conc_case(), oracle_conc, 1000 if quick else 20000, seed_offset=1)
     rec.exhaustive["seq"] = rec.exhaustive["conc"] = False
